@@ -1102,3 +1102,23 @@ func asBool(o Object) Boolean {
 //@ func bNe
 //@ ensures [C02.ne.underflow] old(depth(intp)) < 2 ==> isPSErr(result, eStackunderflow) && depth(intp) == old(depth(intp))
 //@ ensures [C02.ne.int] old(depth(intp)) >= 2 && isInt(old(top(intp, 1))) && isInt(old(top(intp, 0))) ==> result == nil && depth(intp) == old(depth(intp)) - 1 && isBool(top(intp, 0)) && bool(asBool(top(intp, 0))) == (asInt(old(top(intp, 1))) != asInt(old(top(intp, 0)))) && stackFrame(intp, 2)
+
+// Font and resource registries (PLRM 8.2: definefont, findfont,
+// defineresource): definefont registers the dictionary under the name and
+// leaves the font on the stack; findfont returns exactly what was registered.
+//@ func bDefinefont
+//@ ensures [C02.definefont.underflow] old(depth(intp)) < 2 ==> isPSErr(result, eStackunderflow) && depth(intp) == old(depth(intp))
+//@ ensures [C02.definefont.type] old(depth(intp)) >= 2 && (!isType(old(top(intp, 1)), Name) || !isType(old(top(intp, 0)), Dict)) ==> isPSErr(result, eTypecheck) && depth(intp) == old(depth(intp))
+//@ ensures [C02.definefont] old(depth(intp)) >= 2 && isType(old(top(intp, 1)), Name) && isType(old(top(intp, 0)), Dict) ==> result == nil && depth(intp) == old(depth(intp)) - 1 && top(intp, 0) == old(top(intp, 0)) && stackFrame(intp, 2) && has(intp.FontDirectory, old(top(intp, 1)).(Name)) && intp.FontDirectory[old(top(intp, 1)).(Name)] == old(top(intp, 0))
+//@ ensures [C02.definefont.frame] old(depth(intp)) >= 2 && isType(old(top(intp, 1)), Name) && isType(old(top(intp, 0)), Dict) ==> (forall nm Name :: nm != old(top(intp, 1)).(Name) ==> has(intp.FontDirectory, nm) == old(has(intp.FontDirectory, nm)) && intp.FontDirectory[nm] == old(intp.FontDirectory[nm]))
+
+//@ func bFindfont
+//@ ensures [C02.findfont.underflow] old(depth(intp)) < 1 ==> isPSErr(result, eStackunderflow) && depth(intp) == old(depth(intp))
+//@ ensures [C02.findfont.type] old(depth(intp)) >= 1 && !isType(old(top(intp, 0)), Name) ==> isPSErr(result, eTypecheck) && depth(intp) == old(depth(intp))
+//@ ensures [C02.findfont.missing] old(depth(intp)) >= 1 && isType(old(top(intp, 0)), Name) && !old(has(intp.FontDirectory, top(intp, 0).(Name))) ==> isPSErr(result, eInvalidfont) && depth(intp) == old(depth(intp))
+//@ ensures [C02.findfont] old(depth(intp)) >= 1 && isType(old(top(intp, 0)), Name) && old(has(intp.FontDirectory, top(intp, 0).(Name))) ==> result == nil && depth(intp) == old(depth(intp)) && top(intp, 0) == old(intp.FontDirectory[top(intp, 0).(Name)]) && stackFrame(intp, 1)
+
+//@ func bDefineresource
+//@ ensures [C02.defineresource.underflow] old(depth(intp)) < 3 ==> isPSErr(result, eStackunderflow) && depth(intp) == old(depth(intp))
+//@ ensures [C02.defineresource.ok] result == nil ==> depth(intp) == old(depth(intp)) - 2 && top(intp, 0) == old(top(intp, 1)) && stackFrame(intp, 3)
+//@ ensures [C02.defineresource.cmap] result == nil && isType(old(top(intp, 0)), Name) && old(top(intp, 0)).(Name) == Name("CMap") ==> isType(old(top(intp, 1)), Dict) && old(has(top(intp, 1).(Dict), Name("CodeMap"))) && isType(old(top(intp, 1).(Dict)[Name("CodeMap")]), *CMapInfo)
